@@ -31,6 +31,9 @@ PROP = dict(
             job("contractcourt", "^TestVerifC12Resolution$", ["TestVerifC12Resolution"], 2500, shards=4),
             job("contractcourt", "^TestVerifC12Repro", ["TestVerifC12ReproDustAfterBroadcastLocal",
                 "TestVerifC12ReproDustAfterBroadcastRemote", "TestVerifC12ReproDustBitMapOrder"], 1, shards=1, v=True),
+            # real channel states from the channel simulator, real chain watcher / close summaries (notes/C12.md)
+            job("contractcourt", "^TestVerifC12Sim$", ["TestVerifC12Sim"], 35, shards=6, timeout=600,
+                env=dict(VERIF_STEPS=30, VERIF_C12SIM_EVERY=3)),
         ],
         thorough=[
             job("contractcourt", "^TestVerifC12Decision$", ["TestVerifC12Decision"], 80000, shards=12,
@@ -39,6 +42,8 @@ PROP = dict(
                 timeout=900),
             job("contractcourt", "^TestVerifC12Repro", ["TestVerifC12ReproDustAfterBroadcastLocal",
                 "TestVerifC12ReproDustAfterBroadcastRemote", "TestVerifC12ReproDustBitMapOrder"], 1, shards=1, v=True),
+            job("contractcourt", "^TestVerifC12Sim$", ["TestVerifC12Sim"], 120, shards=12, timeout=1800,
+                env=dict(VERIF_STEPS=50, VERIF_C12SIM_EVERY=2)),
         ],
     ),
 )
